@@ -5,6 +5,7 @@ import (
 	"verif/vlib"
 
 	_ "verif/checks/flags"
+	_ "verif/checks/resolve"
 )
 
 func main() { vlib.Main() }
